@@ -7,6 +7,7 @@ failures are deviations (bounded).  Each transition is compared with a fresh
 validator performing only that operation in the effective-availability
 environment, and the scope stack / schema / store / instance are checked.
 """
+import collections
 import copy
 
 from jsonschema import RefResolver, exceptions
@@ -45,7 +46,8 @@ def drivers(d):
         "remote": {H + "remote.json": {"d": {"type": "string"}}},
         "instances": [{"p": 1, "q": "s"}, {"p": "x", "q": 1},
                       {"n": 3, "q": 1, "t": [["a", 1], [2, "b"]], "p": "y"}, {"r": 1, "q": 2},
-                      {"q": 1, "bad": {"z": "s"}, "p": "x"}, {"k": 1, "q": "s", "p": "x"}],
+                      {"q": 1, "bad": {"z": "s"}, "p": "x"}, {"k": 1, "q": "s", "p": "x"},
+                      ("defaulting", {"q": 1, "p": "x"})],
         "refs": ["#/definitions/N", "remote.json#/d", "other.json#/e"], "scope": "sub/",
     })
     # --- B: recursion, unresolvable reference, abandoning applicators
@@ -79,7 +81,8 @@ def drivers(d):
     out.append({
         "name": "C", "schema": S, "store": {},
         "remote": {H + "b/s.json": {"t": {"type": "integer"}}, H + "a/s.json": {"t": {"type": "string"}}},
-        "instances": [{"x": {"y": 1}, "z": "s"}, {"x": {"y": "no"}, "z": 1}, {"w": [1, "s", 2], "x": {"y": []}}],
+        "instances": [{"x": {"y": 1}, "z": "s"}, {"x": {"y": "no"}, "z": 1}, {"w": [1, "s", 2], "x": {"y": []}},
+                      ("defaulting", {"z": 5})],
         "refs": ["s.json#/t", H + "b/s.json#/t"], "scope": H + "b/",
     })
     return out
@@ -143,7 +146,11 @@ def run_op(w, op):
                 inside = w.resolver.resolution_scope
             return ("ret", inside)
         orig = w.drv["instances"][op[1]]
-        x = copy.deepcopy(orig)
+        if isinstance(orig, tuple):         # ("defaulting", {...}): a dict subclass that fills in missing keys when asked
+            orig = orig[1]
+            x = collections.defaultdict(list, copy.deepcopy(orig))
+        else:
+            x = copy.deepcopy(orig)
         try:
             if kind == "is_valid":
                 return ("ret", w.v.is_valid(x))
@@ -194,8 +201,9 @@ class Model(object):
             ops.append(("resolve", i))
         ops += [("resolving", 0), ("resolving", len(drv["refs"]) - 1), ("in_scope",)]
         for i in range(len(drv["instances"])):
-            ops += [("is_valid", i), ("exhaust", i), ("validate", i), ("take_close", i, 1),
-                    ("take_drop", i, 1), ("take_drop", i, 2)]
+            ops += [("is_valid", i), ("exhaust", i), ("validate", i), ("take_close", i, 1), ("take_drop", i, 1)]
+            if i in (1, 2):         # the instances with several errors: also abandon after the second
+                ops.append(("take_drop", i, 2))
         ops.append(("validate_hold", 1))
         self.all_ops = ops
 
